@@ -49,10 +49,11 @@ def place_demo(d, demo, pkgs):
             hint = mm.group(1)
             break
     cand = [hint] if hint else []
-    cand += [p for p in pkgs if os.path.basename(p) == base] + pkgs
+    cand += [p for p in pkgs if os.path.basename(p) == base]
     for root, dirs, files in os.walk(d):
         if os.path.basename(root) == base and any(f.endswith(".go") for f in files):
             cand.append(os.path.relpath(root, d))
+    cand += pkgs
     for c in cand:
         if c and os.path.isdir(os.path.join(d, c)):
             dst = os.path.join(d, c, "zz_" + os.path.basename(demo))
